@@ -210,4 +210,130 @@ def Store.assign (schema : String → V → Option V) (s : Store V) (a : Nat) (n
   | none => s
   | some r => s.set a (Settings.assign schema r n raw).1
 
+/-! ### defaults, copies through `__setstate__`, histories -/
+
+/-- `Setting.revertToDefault`: `_value = deepcopy(default)`, no schema -/
+def revert (r : Reg V) (n : String) : Reg V :=
+  r.map (fun e => if e.name == n then { e with value := e.default } else e)
+
+/-- `Setting.changeDefault(Default(raw, n))` through `cs.getSetting(n)`: `_default = raw` FIRST (uncoerced), then
+`setValue(raw)` — when the schema refuses, the exception leaves the new default and the old value behind. -/
+def changeDefault (schema : String → V → Option V) (r : Reg V) (n : String) (raw : V) : Reg V × Status :=
+  if has r n then
+    match schema n raw with
+    | some v => (r.map (fun e => if e.name == n then { e with default := raw, value := v } else e), .ok)
+    | none => (r.map (fun e => if e.name == n then { e with default := raw } else e), .invalid)
+  else (r, .nonexistent)
+
+/-- `Setting.isDefault`: `value == default` — DERIVED from the two fields, never stored -/
+def isDefault [DecidableEq V] (r : Reg V) (n : String) : Option Bool :=
+  (find? r n).map (fun e => decide (e.value = e.default))
+
+/-- `Settings.__setstate__` (what `copy.deepcopy`, `duplicate()`, `modified()` and unpickling run): the registry is rebuilt
+from the application's definitions `app` (their defaults, their schemas), then every setting of the pickled state hands over
+its VALUE (`_value = settingState.value`, no schema); settings the application does not define are copied whole. -/
+def copyReg (app r : Reg V) : Reg V :=
+  r.foldl (fun acc e => if has acc e.name then setVal acc e.name e.value else acc ++ [e]) app
+
+/-- one step in the life of a settings object; `copy` / `modify` continue with the NEW object -/
+inductive Op (V : Type)
+  | set (n : String) (raw : V)
+  | revert (n : String)
+  | chdef (n : String) (raw : V)
+  | copy
+  | modify (news : List (String × NewItem V))
+
+def stepOp (schema : String → V → Option V) (app : Reg V) (r : Reg V) : Op V → Reg V
+  | .set n raw => (assign schema r n raw).1
+  | .revert n => revert r n
+  | .chdef n raw => (changeDefault schema r n raw).1
+  | .copy => copyReg app r
+  | .modify news => match modifiedReg schema (copyReg app r) news with
+    | some r' => r'
+    | none => r
+
+/-- every settings object reachable from a fresh `Settings()` by assignments (accepted or refused), reverts, default
+changes, copies (deepcopy / duplicate / pickle) and `modified(...)`, in any order -/
+def runOps (schema : String → V → Option V) (app : Reg V) (ops : List (Op V)) : Reg V :=
+  ops.foldl (stepOp schema app) app
+
+/-! ### numeric schemas  `vol.All(vol.Coerce(int | float), vol.Range(min, max, min_included, max_included))`
+
+The schema of every strictly-positive / bounded numeric setting (globalSettings.py, neutronics/settings.py, …).  Raw inputs:
+Python `int`, finite `float` (exact rational value) and `bool`; strings and non-finite floats stay parameters. -/
+
+inductive NumType | int | float
+  deriving Repr, DecidableEq
+
+inductive RawNum
+  | int (i : Int)
+  | float (q : Rat)
+  | bool (b : Bool)
+  deriving Repr, DecidableEq
+
+/-- a stored number: Python `int` or `float` -/
+inductive Num
+  | int (i : Int)
+  | float (q : Rat)
+  deriving Repr, DecidableEq
+
+def Num.val : Num → Rat
+  | .int i => i
+  | .float q => q
+
+def Num.toRaw : Num → RawNum
+  | .int i => .int i
+  | .float q => .float q
+
+/-- Python `int(x)` on a float: truncation toward zero -/
+def truncate (q : Rat) : Int := Int.tdiv q.num q.den
+
+/-- `vol.Coerce(T)`: `int(x)` / `float(x)` on a number -/
+def coerceNum : NumType → RawNum → Num
+  | .int, .int i => .int i
+  | .int, .float q => .int (truncate q)
+  | .int, .bool b => .int (if b then 1 else 0)
+  | .float, .int i => .float i
+  | .float, .float q => .float q
+  | .float, .bool b => .float (if b then 1 else 0)
+
+structure NumRange where
+  min : Option Rat
+  max : Option Rat
+  minIncluded : Bool
+  maxIncluded : Bool
+  deriving Repr, DecidableEq
+
+/-- `vol.Range.__call__`: `v < min` / `v <= min` raises depending on `min_included`, likewise `max` -/
+def inRange (rg : NumRange) (x : Rat) : Bool :=
+  (match rg.min with
+   | none => true
+   | some m => if rg.minIncluded then decide (m ≤ x) else decide (m < x)) &&
+  (match rg.max with
+   | none => true
+   | some m => if rg.maxIncluded then decide (x ≤ m) else decide (x < m))
+
+/-- `vol.All(vol.Coerce(T), vol.Range(…))`: coerce FIRST, then validate the coerced value; `none` = `vol.Invalid` -/
+def numSchema (t : NumType) (rg : NumRange) (raw : RawNum) : Option Num :=
+  let v := coerceNum t raw
+  if inRange rg v.val then some v else none
+
+def RawNum.val : RawNum → Rat
+  | .int i => i
+  | .float q => q
+  | .bool b => if b then 1 else 0
+
+/-- the composition in the OTHER order, `vol.All(vol.Range(…), vol.Coerce(T))` — not what the settings use; kept to state
+`range_before_coerce_admits_what_it_cannot_hold` -/
+def numSchemaRangeFirst (t : NumType) (rg : NumRange) (raw : RawNum) : Option Num :=
+  if inRange rg raw.val then some (coerceNum t raw) else none
+
+/-- a list schema `[vol.All(vol.Coerce(T), vol.Range(…))]` (buGroups, tempGroups, …): every element through the element
+schema, the first refusal refuses the whole list -/
+def numListSchema (t : NumType) (rg : NumRange) : List RawNum → Option (List Num)
+  | [] => some []
+  | x :: xs => match numSchema t rg x, numListSchema t rg xs with
+    | some v, some vs => some (v :: vs)
+    | _, _ => none
+
 end ArmiVerif.Settings
